@@ -26,18 +26,21 @@ type Spec struct {
 }
 
 type obs struct {
-	appended  []error
-	kills     int
-	stops     int
-	readErrs  [][]error
-	finalErrs []error
-	isDone    bool
-	closeErr  error
-	closed    bool
-	waitErr   error
-	done      bool
-	note      string
-	seen      []seenObs
+	appended                    []error
+	kills                       int
+	stops                       int
+	readErrs                    [][]error
+	finalErrs                   []error
+	isDone                      bool
+	closeErr                    error
+	closed                      bool
+	waitErr                     error
+	done                        bool
+	note                        string
+	seen                        []seenObs
+	parentAsked                 []string
+	parentClosed                bool
+	parentCommitted             bool
 	closedByThread              bool
 	finalErrText, parentErrText string
 	parentErrs                  int
@@ -57,7 +60,7 @@ func build(sp Spec, o *obs) func() {
 		*o = obs{}
 		var cs app.ContextScope
 		var full app.Scope
-		var parent app.Scope
+		var parent, child app.Scope
 		var wg vsched.WaitGroup
 		inClose := false
 		switch sp.Kind {
@@ -75,6 +78,19 @@ func build(sp Spec, o *obs) func() {
 		case "childof-done", "child-racing":
 			parent = scope.New(scope.Params{})
 			cs = parent
+		case "child-closing":
+			// a registered child (same context) whose close-time listener fails, closed by one goroutine
+			// while another waits on / closes the PARENT: the parent must report the listener's error
+			parent = scope.New(scope.Params{})
+			cs = parent
+			child = scope.NewChild(parent, scope.ChildParams{})
+			// (a child's events also reach the parent's listeners: only the parent's own commit counts)
+			parent.On(app.CommitEvent, func(d interface{}) error {
+				if s, ok := d.(app.Scope); ok && s == parent {
+					o.parentCommitted = true
+				}
+				return nil
+			})
 		case "scope-closing":
 			// the threads are registered tasks of a scope that another goroutine is closing: they
 			// signal their failure while Close waits for them
@@ -149,6 +165,25 @@ func build(sp Spec, o *obs) func() {
 							n := len(cs.Errors())
 							o.seen = append(o.seen, seenObs{n, cs.Err() == nil})
 						}
+					case "cclose/before-close", "cclose/commit", "cclose/after-commit", "cclose/after-close":
+						evs := map[string]interface{}{"before-close": app.BeforeCloseEvent, "commit": app.CommitEvent, "after-commit": app.AfterCommitEvent, "after-close": app.AfterCloseEvent}
+						e := fmt.Errorf("listener-failed-%d-%d", ti, oi)
+						child.On(evs[strings.TrimPrefix(op, "cclose/")], func(interface{}) error {
+							o.appended = append(o.appended, e)
+							return e
+						})
+						child.Close()
+					case "pwait":
+						if e := parent.Wait(); e != nil {
+							o.waitErrText = e.Error()
+						}
+						o.parentAsked = append(o.parentAsked, "Wait()="+o.waitErrText)
+					case "pclose":
+						if e := parent.Close(); e != nil {
+							o.closeErrText = e.Error()
+						}
+						o.parentAsked = append(o.parentAsked, "Close()="+o.closeErrText)
+						o.parentClosed = true
 					case "newchild-close":
 						// the termexec pattern: a command scope created on a scope that may just have ended
 						ch := scope.NewChild(parent, scope.ChildParams{Name: "cmd"})
@@ -173,6 +208,13 @@ func build(sp Spec, o *obs) func() {
 			// sequential: the parent has ended; creating and closing a child must be safe
 			ch := scope.NewChild(parent, scope.ChildParams{})
 			o.closeErr = ch.Close()
+		}
+		if sp.Kind == "child-closing" {
+			if !o.parentClosed {
+				parent.Close()
+			}
+			o.done = true
+			return
 		}
 		if sp.Kind == "scope-closing" {
 			o.finalErrs = append([]error{}, cs.Errors()...)
@@ -209,6 +251,22 @@ func judge(sp Spec, o *obs) func(x *explore.Exec) *explore.Verdict {
 			return &explore.Verdict{Kind: "close-result-while-tasks-signal", Clause: "every appended error is retained and reported by ... waiting on or closing it", Detail: o.note}
 		}
 		want := len(o.appended) + o.kills
+		if sp.Kind == "child-closing" {
+			// (the commit listeners only fire when nothing failed before; whatever DID fail must be reported)
+			for _, e := range o.appended {
+				for _, asked := range o.parentAsked {
+					if !strings.Contains(asked, e.Error()) {
+						return &explore.Verdict{Kind: "child-close-error-not-reported-by-parent", Clause: "every appended error is retained and reported by ... waiting on or closing it",
+							Detail: fmt.Sprintf("the registered child's close-time listener failed with %q (shared context), but the parent's %s does not mention it", e.Error(), short(asked))}
+					}
+				}
+				if o.parentClosed && o.parentCommitted {
+					return &explore.Verdict{Kind: "child-close-error-not-reported-by-parent", Clause: "every appended error is retained and reported by ... waiting on or closing it",
+						Detail: fmt.Sprintf("the registered child's close-time listener failed with %q, but the parent's Close committed", e.Error())}
+				}
+			}
+			return nil
+		}
 		if sp.Kind == "scope-closing" {
 			// (Close itself may add its own wrapped error: at least the signalled ones are held)
 			if len(o.finalErrs) < want {
@@ -336,7 +394,7 @@ func programs(thorough bool) []Spec {
 		ps = append(ps,
 			Spec{k, [][]string{{"errbatch", "errors"}}, 0},
 			Spec{k, [][]string{{"errbatch"}, {"err"}}, b2},
-			Spec{k, [][]string{{"errbatch"}, {"errbatch"}}, b2-1},
+			Spec{k, [][]string{{"errbatch"}, {"errbatch"}}, b2 - 1},
 		)
 		// cumulative accessors asked between appends
 		ps = append(ps,
@@ -362,6 +420,11 @@ func programs(thorough bool) []Spec {
 	for _, op := range []string{"err", "kill", "stop"} {
 		ps = append(ps, Spec{"scope-closing", [][]string{{op}}, b2}, Spec{"scope-closing", [][]string{{op}, {"err"}}, b3})
 	}
+	// a failing close-time listener of a registered child vs. the parent's Wait / Close
+	for _, ev := range []string{"before-close", "commit", "after-commit", "after-close"} {
+		ps = append(ps, Spec{"child-closing", [][]string{{"cclose/" + ev}, {"pwait"}}, b2}, Spec{"child-closing", [][]string{{"cclose/" + ev}, {"pclose"}}, b2},
+			Spec{"child-closing", [][]string{{"cclose/" + ev}, {"pwait"}, {"pclose"}}, b3})
+	}
 	// children of a scope that is done / ends concurrently
 	for _, end := range []string{"stop", "kill", "err"} {
 		ps = append(ps, Spec{"childof-done", [][]string{{end}}, 0})
@@ -378,7 +441,9 @@ func mkProgram(sp Spec) *explore.Program {
 		Opt:  explore.Options{Bound: sp.Bound, Focus: focus, Race: true, MaxSteps: 5000},
 		Body: build(sp, o), Judge: judge(sp, o),
 		Outcome: func() string { return fmt.Sprintf("errs=%d done=%v", len(o.finalErrs), o.isDone) },
-		RaceOK:  func(r vsched.RaceInfo) bool { return !strings.Contains(r.First, "app/scope") && !strings.Contains(r.Second, "app/scope") },
+		RaceOK: func(r vsched.RaceInfo) bool {
+			return !strings.Contains(r.First, "app/scope") && !strings.Contains(r.Second, "app/scope")
+		},
 	}
 }
 
@@ -427,6 +492,6 @@ var _ = errors.New
 func init() {
 	fw.Register(&fw.Check{ID: "C12", Level: "model_checking",
 		Rule: "programs = scope kind {plain context scope, isolated, full scope, child sharing the parent's context} x thread programs (all pairs of single operations from {AppendError, Kill, Stop, IsDone, Errors}; curated 2x2; 3x1; batches reported from one re-used, overwritten caller slice; readers that look at Errors/Err after having observed the done signal) plus registered tasks that signal while another goroutine is inside Close, plus child creation/closing after and racing with the parent's end; every schedule of the real code with <= bound preemptions (2 threads: 3 quick / 4 thorough; 3 threads: 2 / 3) is executed; oracle: no panic (a double close of the done channel or a negative wait-group counter panics), error count and identity, done signal, a reader that saw the done signal of a never-stopped scope sees its error, Wait/Close report, no deadlock, and the happens-before race oracle on the scope packages' multi-word fields. states = distinct schedule traces",
-		Run: run, Replay: replay,
+		Run:  run, Replay: replay,
 		Assumptions: []string{"2-3 concurrent callers; preemption bounds as reported", "word-sized fields (e.g. the closed flag) are outside the race oracle"}})
 }
